@@ -21,6 +21,11 @@ package mint
 //@   ensures @ceil result == fee.tx(seq(inputs), mapkeys(m.keysets), mapvals(m.keysets), len(inputs))
 //@   loop range(inputs) invariant 0 <= i && i <= len(inputs) && fees == fee.sum(seq(inputs), mapkeys(m.keysets), mapvals(m.keysets), i) % 18446744073709551616
 
+// What verifyProofs establishes for every input (C04, C12, C13): the key is
+// looked up under exactly (id, amount) of the proof in the map of ALL keysets
+// (never the active one), and the lock verifiers accepted the proof.
+//@ macro okproof(m, p) = len(p.Secret) <= 512 && (p.Id in m.keysets) && (p.Amount in m.keysets[p.Id].Keys) && hexok(p.C) && pt.parseok(hexdec(p.C)) && pt.parse(hexdec(p.C)) == smul(sc.of(m.keysets[p.Id].Keys[p.Amount].PrivateKey.Key), h2c(bytesOf(p.Secret))) && (nut10.ok(p.Secret) && nut10.parse(p.Secret).Kind == nut10.P2PK ==> (exists t :: p2pk.verdict(p, nut10.parse(p.Secret), t) == nil)) && (nut10.ok(p.Secret) && nut10.parse(p.Secret).Kind == nut10.HTLC ==> (exists t :: htlc.verdict(p, nut10.parse(p.Secret), t) == nil))
+
 //@ func (*Mint).verifyProofs
 //@   tags C01 C04 C12 C13
 //@   safety C06
@@ -29,6 +34,9 @@ package mint
 //@   requires forall i :: 0 <= i && i < len(proofs) ==> Ys[i] == Yof(proofs[i].Secret)
 //@   ensures @nonempty err == nil ==> len(proofs) >= 1
 //@   ensures @unspent [C01] err == nil ==> (forall i :: 0 <= i && i < len(proofs) ==> !db.spent[Yof(proofs[i].Secret)] && !db.pending[Yof(proofs[i].Secret)])
+//@   ensures @genuine [C04,C12,C13,C09] err == nil ==> (forall i :: 0 <= i && i < len(proofs) ==> okproof(m, proofs[i]))
+//@   ensures @distinctsecrets [C01] err == nil ==> (forall i, j :: 0 <= i && i < j && j < len(proofs) ==> proofs[i].Secret != proofs[j].Secret)
+//@   loop range(proofs) invariant 0 <= i && i <= len(proofs) && (forall j :: 0 <= j && j < i ==> okproof(m, proofs[j]))
 
 //@ func (*Mint).signBlindedMessages
 //@   tags C02 C09 C10
